@@ -15,6 +15,12 @@ fn main() {
         }
         return;
     }
+    if args[0] == "--worker" {
+        let id = args.get(1).map(|s| s.as_str()).unwrap_or("");
+        let tier = if args.get(2).map(|s| s.as_str()) == Some("thorough") { Tier::Thorough } else { Tier::Quick };
+        let Some(prop) = props.iter().find(|p| p.id() == id) else { std::process::exit(2) };
+        std::process::exit(pv::isolate::worker_main(prop.as_ref(), tier));
+    }
     if args[0] == "--replay" {
         let code = replay_main(&props, Path::new(&args[1]));
         std::process::exit(code);
